@@ -8,9 +8,10 @@ commands and never change the project tree or the fingerprint state under `.task
 consequently `H;R;K ≈ H;K` for every history `H`, read-only invocation `R` and
 continuation `K`.
 
-The model (`TaskModel.Finger.invoke`) is parameterised by `Cfg`, the two places where the
+The model (`TaskModel.Finger.invoke`) is parameterised by `Cfg`, the three places where the
 snapshot as found did something else (`ToEditorOutput` ran the checkers with `e.Dry`,
-`RunTask` called `mkdir` also when dry).  The property demands `Cfg.fixed`; that the tree
+`RunTask` called `mkdir` also when dry, `statusOnError` removed the fingerprint also when dry —
+reachable through a `task:` call whose precondition fails, `C12_dry_failing_call`).  The property demands `Cfg.fixed`; that the tree
 under test is wired like `Cfg.fixed` is the content of `Facts.dryWiring_calls_ok` /
 `Facts.dryWiring_guards_ok` (regenerated from the source on every run) and of
 `wiring_is_fixed` below.  For `Cfg.found` the statement is false
@@ -30,7 +31,7 @@ def C12_full (cfg : Cfg) : Prop :=
 /-- **C12 in full** for the wiring the property demands (and the patched tree has). -/
 theorem C12_full_fixed : C12_full Cfg.fixed := by
   intro H pr i m e s hm
-  exact invoke_readOnly Cfg.fixed H pr rfl rfl i m e s hm
+  exact invoke_readOnly Cfg.fixed H pr rfl rfl rfl i m e s hm
 
 /-- **Continuation equivalence** `H;R;K ≈ H;K`: inserting a read-only invocation anywhere in a
 history changes neither the final state nor any other step's observation. -/
@@ -42,13 +43,52 @@ theorem C12_continuation (H : Bytes → Bytes) (pr : Proj) (h k : List Step) (i 
     withR.1 = without.1 ∧
     without.2 = (runHist Cfg.fixed H pr h s).2 ++ (runHist Cfg.fixed H pr k sh).2 ∧
     withR.2 = (runHist Cfg.fixed H pr h s).2 ++ some (invoke Cfg.fixed H pr i m e sh).2 :: (runHist Cfg.fixed H pr k sh).2 := by
-  have hro := (invoke_readOnly Cfg.fixed H pr rfl rfl i m e (runHist Cfg.fixed H pr h s).1 hm).1
+  have hro := (invoke_readOnly Cfg.fixed H pr rfl rfl rfl i m e (runHist Cfg.fixed H pr h s).1 hm).1
   simp [runHist_append, runHist, step, hro]
+
+/-- **the marker of method timestamp** (as patched by TS1–TS3: created when absent, touched when
+the task is going to run, REMOVED by `OnError`): the read-only modes never create, touch or remove
+it — nor any checksum —, whatever the environment does (declined prompt, failing command). -/
+theorem C12_marker_untouched (H : Bytes → Bytes) (pr : Proj) (i : Nat) (m : Mode) (e : Env) (s : State)
+    (hm : m.readOnly = true) :
+    (invoke Cfg.fixed H pr i m e s).1.marks = s.marks ∧ (invoke Cfg.fixed H pr i m e s).1.sums = s.sums := by
+  rw [(C12_full_fixed H pr i m e s hm).1]
+  exact ⟨rfl, rfl⟩
+
+/-- … because the dry body never reaches `OnError`: for every task, environment and state the dry
+body leaves the state alone and runs nothing — where the non-dry body would call `onError` (prompt
+declined, command failing) and ALSO where the dry body itself fails: a `task:` call whose
+precondition does not hold (`Cmd.blocked`), the one thing that fails although nothing is executed.
+It then reports `failed`, as the real `--dry` does, and that is all. -/
+theorem C12_dry_body_no_onError (H : Bytes → Bytes) (pr : Proj) (i : Nat) (t : Task) (e : Env) (s : State) :
+    (runBody Cfg.fixed H pr i t true e s).1 = s ∧ (runBody Cfg.fixed H pr i t true e s).2.ran = [] ∧
+    (runBody Cfg.fixed H pr i t true e s).2.exit = if t.cmds.any (fun c => c.blocked s.files) then .failed else .ok :=
+  ⟨(runBody_dry Cfg.fixed H pr rfl rfl i t e s).1, (runBody_dry Cfg.fixed H pr rfl rfl i t e s).2,
+   runBody_dry_exit Cfg.fixed H pr rfl rfl i t e s⟩
+
+/-- **a failing call under `--dry`** (TS4): the invocation exits `failed` — and changes nothing. -/
+theorem C12_dry_failing_call (H : Bytes → Bytes) (pr : Proj) {i : Nat} {t : Task} (ht : pr.tasks[i]? = some t)
+    (e : Env) (s : State) (hno : (isUpToDate H pr t true e.now s).2 = false)
+    (hb : t.cmds.any (fun c => c.blocked s.files) = true) :
+    (invoke Cfg.fixed H pr i .dry e s).1 = s ∧ (invoke Cfg.fixed H pr i .dry e s).2.exit = .failed ∧
+    (invoke Cfg.fixed H pr i .dry e s).2.ran = [] := by
+  refine ⟨(C12_full_fixed H pr i .dry e s rfl).1, ?_, (C12_full_fixed H pr i .dry e s rfl).2⟩
+  simp only [invoke, ht, hno, Bool.false_eq_true, if_false, isUpToDate_dry]
+  rw [runBody_dry_exit Cfg.fixed H pr rfl rfl i t e s, if_pos hb]
+
+/-- `checker.OnError` is unreachable in dry mode WHATEVER the call site of `statusOnError` (TS4): its
+only call sits under `!(e.Dry)` in the regenerated guard table.  (The two call sites of
+`statusOnError` itself — declined prompt, failed command — need no guard of their own any more.) -/
+theorem onError_unreachable_when_dry :
+    TaskModel.Gen.DryWiring.guards.filter (fun g => g.1 == "Executor.statusOnError:checker.OnError") =
+      [("Executor.statusOnError:checker.OnError", "!(e.Dry)")] := by
+  decide
 
 /-- the dry wiring read off the regenerated tables -/
 def cfgOfTables : Cfg :=
   { listDry := TaskModel.Gen.DryWiring.calls.any (fun c => c.1 == "Executor.ToEditorOutput:fingerprint.WithDry" && c.2 == "true"),
-    dryMkdir := !TaskModel.Gen.DryWiring.guards.any (fun c => c.1 == "Executor.RunTask:e.mkdir" && c.2 == "!e.Dry") }
+    dryMkdir := !TaskModel.Gen.DryWiring.guards.any (fun c => c.1 == "Executor.RunTask:e.mkdir" && c.2 == "!e.Dry"),
+    dryOnError := !TaskModel.Gen.DryWiring.guards.any (fun c => c.1 == "Executor.statusOnError:checker.OnError" && c.2 == "!(e.Dry)") }
 
 /-- the tree under test is wired as the property demands -/
 theorem wiring_is_fixed : cfgOfTables = Cfg.fixed := by
@@ -56,11 +96,11 @@ theorem wiring_is_fixed : cfgOfTables = Cfg.fixed := by
   rw [Facts.dryWiring_calls_ok]
   decide
 
-/-! ## The tree as found (`ee97f41`) violates the property in both places -/
+/-! ## The tree as found (`ee97f41`) violates the property in all three places -/
 
 private def tX : Task :=
   { name := [120], label := [], method := .checksum, sources := [⟨false, [0]⟩], generates := [],
-    status := [], prompt := false, dir := none, cmds := [⟨[]⟩] }
+    status := [], prompt := false, dir := none, cmds := [⟨[], none⟩] }
 private def tD : Task := { tX with dir := some 0, sources := [] }
 private def prX : Proj := { base := [(0, [97])], dirOf := [], dirLen := [], tasks := [tX] }
 private def prD : Proj := { base := [], dirOf := [], dirLen := [(0, 2)], tasks := [tD] }
@@ -78,6 +118,24 @@ theorem C12_found_listjson_counterexample :
 theorem C12_found_dry_mkdir_counterexample :
     (invoke Cfg.found id prD 0 .dry (env 10) State.empty).1 ≠ State.empty := by decide
 
+/- a task with a stored checksum whose second command is a `task:` call with precondition `test -f 1` -/
+private def tC : Task := { tX with cmds := [⟨[], none⟩, ⟨[], some 1⟩] }
+private def prC : Proj := { prX with base := [(0, [97]), (1, [98])], tasks := [tC] }
+private def sC : State :=   -- after a successful run with file 1 present: file 1 removed, source edited
+  applyOp prC (.write 0 [2] 7) (applyOp prC (.delete 1)
+    (invoke Cfg.fixed id prC 0 .run ⟨10, true, none, none⟩ { State.empty with files := [(0, ⟨[1], 5⟩), (1, ⟨[], 5⟩)] }).1)
+
+/-- (TS4) the rule before the fix, in isolation (`dryOnError := true`, the other two as repaired): the
+task ran once (checksum stored), the precondition's file is removed and a source edited; `--dry`
+follows the call, the call fails, `statusOnError` DELETES the checksum although the run is dry.
+With `Cfg.fixed` the same invocation reports `failed` and leaves the checksum where it was. -/
+theorem C12_dry_onError_counterexample :
+    sC.sums ≠ [] ∧
+    (invoke { Cfg.fixed with dryOnError := true } id prC 0 .dry (env 20) sC).1.sums = [] ∧
+    (invoke { Cfg.fixed with dryOnError := true } id prC 0 .dry (env 20) sC).2.exit = .failed ∧
+    (invoke Cfg.fixed id prC 0 .dry (env 20) sC).1 = sC ∧ (invoke Cfg.fixed id prC 0 .dry (env 20) sC).2.exit = .failed ∧
+    (isUpToDate id prC tC true 20 sC).2 = false ∧ tC.cmds.any (fun c => c.blocked sC.files) = true := by decide
+
 theorem C12_full_found_false : ¬ C12_full Cfg.found := by
   intro h
   exact C12_found_dry_mkdir_counterexample (h id prD 0 .dry (env 10) State.empty rfl).1
@@ -88,5 +146,24 @@ example : (invoke Cfg.fixed id prX 0 .listJson (env 10) s1).1 = s1 ∧
     (invoke Cfg.fixed id prD 0 .dry (env 10) State.empty).1 = State.empty ∧
     (invoke Cfg.fixed id prX 0 .run (env 10) s1).1 ≠ s1 ∧
     (invoke Cfg.fixed id prX 0 .run (env 10) s1).2.ran = [0] := by decide
+
+/- method timestamp: a marker older than the source (3 < 5) -/
+private def tT : Task := { tX with method := .timestamp }
+private def prT : Proj := { prX with tasks := [tT] }
+private def s3 : State := { s1 with marks := [(tsKey tT, 3)] }
+private def envF (n : Nat) : Env := ⟨n, true, some 0, none⟩
+
+/-- non-vacuity for the marker: a normal run CREATES it (no marker), TOUCHES it (stale marker) and —
+when the command fails — REMOVES it; `--dry` (also with the failing command), `--status`,
+`--list --json`, `--list`, `--summary` leave it exactly as it was -/
+example :
+    (invoke Cfg.fixed id prT 0 .run (env 10) s1).1.marks = [(tsKey tT, 10)] ∧
+    (invoke Cfg.fixed id prT 0 .run ⟨10, true, none, none⟩ s3).1.marks = [(tsKey tT, 10)] ∧
+    (invoke Cfg.fixed id prT 0 .run (envF 10) s3).1.marks = [] ∧
+    (invoke Cfg.fixed id prT 0 .dry (env 10) s1).1 = s1 ∧
+    (invoke Cfg.fixed id prT 0 .dry (envF 10) s3).1 = s3 ∧ (invoke Cfg.fixed id prT 0 .dry (envF 10) s3).2.ran = [] ∧
+    (invoke Cfg.fixed id prT 0 .status (envF 10) s3).1 = s3 ∧ (invoke Cfg.fixed id prT 0 .listJson (envF 10) s3).1 = s3 ∧
+    (invoke Cfg.fixed id prT 0 .list (envF 10) s3).1 = s3 ∧ (invoke Cfg.fixed id prT 0 .summary (envF 10) s3).1 = s3 := by
+  decide
 
 end Props.C12
